@@ -25,6 +25,9 @@ type pollWorld struct {
 func newPollWorld(eio string) *pollWorld {
 	p, rec := newPolling(eio)
 	p.SetMaxHttpBufferSize(1 << 20)
+	// the session's reaction to a transport error is to close the transport
+	// (socket.onError -> OnClose -> clearTransport -> transport.Close)
+	p.On("error", func(...any) { p.Close() })
 	return &pollWorld{p: p, rec: rec}
 }
 
@@ -150,7 +153,10 @@ func VerifH_C11_overlapping_data() {
 	w.p.OnRequest(first.ctx)
 	verif.InjectBudget(0)
 	verif.Settle()
-	verif.Assert(first.w.writeCalls == 1 && len(first.w.status) == 1 && first.w.status[0] == 200, "the first data request gets its single 'ok'")
+	verif.Assert(first.w.writeCalls == 1 && len(first.w.status) == 1, "the first data request gets exactly one response")
+	if !injected {
+		verif.Assert(first.w.status[0] == 200, "and it is 'ok' when nothing overlapped it")
+	}
 	if injected {
 		verif.Assert(second.w.writeCalls == 1 && len(second.w.status) == 1 && second.w.status[0] == 400, "the overlapping data request is answered 400")
 		verif.Assert(w.rec.count("error") == 1, "and reported as a transport error")
